@@ -7,5 +7,10 @@ sys.path.insert(0, os.path.dirname(os.path.dirname(os.path.abspath(__file__))))
 from rexsa.model import Model
 m = Model()
 out = os.path.join(os.path.dirname(os.path.dirname(os.path.abspath(__file__))), "rexsa", "known_api.json")
-json.dump({"source_digest": m.digest(), "functions": sorted(m.functions)}, open(out, "w"), indent=0)
+def params(fi):
+    a = fi.node.args
+    return [x.arg for x in a.posonlyargs + a.args + a.kwonlyargs] + (["*" + a.vararg.arg] if a.vararg else []) + (["**" + a.kwarg.arg] if a.kwarg else [])
+from rexsa.model import fingerprint
+json.dump({"source_digest": m.digest(), "functions": sorted(m.functions), "params": {q: params(fi) for q, fi in sorted(m.functions.items())},
+           "fingerprint": {q: fingerprint(fi.node) for q, fi in sorted(m.functions.items()) if fi.parent is not None}}, open(out, "w"), indent=0)
 print(len(m.functions), "functions frozen ->", out)
